@@ -11,3 +11,6 @@ import BacVerif.Props.C06
 #print axioms BacVerif.C06.forwarding_chain_bound
 #print axioms BacVerif.C06.forwarding_terminates
 #print axioms BacVerif.C06.hop_measure
+#print axioms BacVerif.C06.tree_global_broadcast_once
+#print axioms BacVerif.C06.tree_global_broadcast_not_to_originator
+#print axioms BacVerif.C06.tree_global_broadcast_reaches_all
